@@ -40,7 +40,7 @@ class DriverListener:
         n = size[1] if size[0] == 'c' else None
         # scalar object written as bytes
         v = st.mem.get((obj, path))
-        if v is not None and v[0] == 'c' and n is not None:
+        if v is not None and v[0] == 'c' and n is not None and not (path and isinstance(path[-1], int)):
             return ('const', v[1], n)
         if path and isinstance(path[-1], int) and n is not None and n <= 256:
             vals = [I.load(st, (obj, path[:-1] + (path[-1] + i,))) for i in range(n)]
@@ -48,6 +48,9 @@ class DriverListener:
                 return ('zero', n)
             if all(x[0] == 'c' for x in vals):
                 return ('const', tuple(x[1] for x in vals), n)
+            if any(x[0] == 'c' for x in vals) and n <= 64:
+                # a block put together from constants and values: one descriptor per byte
+                return ('bytes', tuple(('byte', x[1]) if x[0] == 'c' else ('val', show(x)) for x in vals), n)
         return ('loc', obj, path)
 
     def _caller_obj(self, I, st, obj, what, node):
@@ -274,6 +277,9 @@ class Driver:
         steprec = A.step['rec']
         facs = [f for f in prog.functions.values()
                 if prog.type(f['ret']).get('k') == 'ptr' and prog.type(prog.type(f['ret'])['to']).get('rec') == steprec and f.get('rec')]
+        if len(facs) > 1:
+            from wai.facts import outermost
+            facs = outermost(prog, facs)
         if len(facs) != 1:
             raise AnalysisBroken('expected one stream factory method returning %s*, found %d' % (steprec, len(facs)))
         self.factory = facs[0]
